@@ -1291,6 +1291,25 @@ func (m *Machine) slice(f *Frame, in *ssa.Slice) Value {
 		if hit != nil && hit.IsConst() && hit.U == 0 && lo0 {
 			return ByteSlice{T: m.strLit(""), Resliced: true, Buf: a.Buf, AtStart: a.AtStart} // x[:0]: empty, but keeps x's backing array
 		}
+		if m.Domain != DomString {
+			// bounds of a re-slice of opaque bytes: Go checks lo <= hi <= cap. The capacity of such a
+			// value is the allocator's choice (not below its length), so a bound above the length can
+			// panic and is reported; within the length the sub-slice is an uninterpreted function.
+			ln := m.bytesLen(a)
+			h := ln
+			if hit != nil {
+				h = BVResize(hit, 64, true)
+				if !m.branch("byteslice.hi-in-range", And(Not(BVCmp("bvslt", h, BVC(64, 0))), BVCmp("bvule", h, ln))) {
+					panic(m.goPanic("slice bounds out of range [:hi] beyond the length of an opaque []byte (its capacity is not under the program's control)"))
+				}
+			}
+			if lot != nil {
+				l := BVResize(lot, 64, true)
+				if !m.branch("byteslice.lo-in-range", And(Not(BVCmp("bvslt", l, BVC(64, 0))), BVCmp("bvule", l, h))) {
+					panic(m.goPanic("slice bounds out of range [lo:hi] on an opaque []byte"))
+				}
+			}
+		}
 		return ByteSlice{T: m.strSlice(m.current(a), lot, hit), Resliced: true, Buf: a.Buf, AtStart: a.AtStart && lo0}
 	}
 	if lot != nil {
